@@ -47,7 +47,7 @@ PROPS = {
             'expect': ['gen_hasref:impl Quantity for AmountT::new', 'gen_hasref:impl Quantity for AmountT::amount',
                        'gen_hasref:impl Quantity for AmountT::unit', 'gen_hasref:impl LinearScaledUnit for One::scale',
                        'gen_hasref:impl Mul < One > for AmountT::mul', 'gen_hasref:impl Mul < AmountT > for One::mul']},
-    'C09': {'level': 'proof', 'quick': TYPES_REF + ['kani_q_f64:reg', 'kani_q_f64:ufs', 'kani_q_f64:sym', 'kani_astro_f64:reg', 'kani_astro_f64:ufs', 'kani_astro_f64:sym',
+    'C09': {'level': 'proof', 'quick': TYPES_REF + ['kani_q_f64:reg', 'kani_q_f64:ufs', 'kani_q_f64:sym', 'kani_q_f64:syma', 'kani_astro_f64:syma', 'kani_astro_f64:reg', 'kani_astro_f64:ufs', 'kani_astro_f64:sym',
                                          'kani_fix_f64:reg', 'kani_fix_f64:ufs', 'kani_fix_f64:sym'],
             'thorough': TYPES_FIX + ['kani_q_dec:reg', 'kani_q_dec:ufs', 'kani_q_dec:sym', 'kani_q_f64:symc'],
             'expect': ['kani_q_f64:reg::k_reg_Length', 'kani_q_f64:reg::k_asqty_Length', 'kani_q_f64:ufs::k_ufs_Length',
